@@ -133,6 +133,39 @@ def cmd_detect(i, props, tier="quick"):
     save_meta(i, m)
 
 
+def cmd_table():
+    """markdown table of all seeded changes (for DESIGN.md 11.6)"""
+    import glob, re
+    rows = []
+    for mp in sorted(glob.glob(os.path.join(VERIF, "seeded", "*", "meta.json")), key=lambda x: (os.path.basename(os.path.dirname(x)).split("-")[0], int(re.sub(r"\D", "", os.path.basename(os.path.dirname(x)).split("-m")[1])))):
+        i = os.path.basename(os.path.dirname(mp))
+        m = json.load(open(mp))
+        rd = os.path.join(os.path.dirname(mp), "README.md")
+        title = open(rd).read().strip().split("\n")[0].lstrip("# ").strip() if os.path.exists(rd) else ""
+        title = re.sub(r"^C\d\d\s*(/|seeded change|,)?\s*(m|change)?\s*\d*\s*[-:]*\s*", "", title)[:110].replace("|", "/")
+        conf = m.get("confirmation", {}).get("confirmed")
+        det = []
+        for k, v in sorted(m.get("detection", {}).items()):
+            if v.get("rc") == 1:
+                cl = ""
+                for l in v.get("lines", []):
+                    mm = re.search(r"violation class (?:viol|crash)/([^/ ]+)", l)
+                    if mm:
+                        cl = mm.group(1)
+                        break
+                det.append(k.split(":")[0] + (" " + cl if cl else ""))
+        miss = [k.split(":")[0] for k, v in m.get("detection", {}).items() if v.get("rc") == 0]
+        note = "rebased" if m.get("rebased") else ""
+        if m.get("status"):
+            note = (note + " " if note else "") + m["status"].split(":")[0]
+        if m.get("strengthened"):
+            note = (note + "; " if note else "") + m["strengthened"]
+        rows.append("| %s | %s | %s | %s | %s |" % (i, title, "yes" if conf else "no", ", ".join(det) if det else ("MISSED by " + ",".join(miss) if miss else "-"), note))
+    print("| id | change | confirmed | detected by (check, first violation class) | note |")
+    print("|---|---|---|---|---|")
+    print("\n".join(rows))
+
+
 if __name__ == "__main__":
     a = sys.argv[1:]
     if not a:
@@ -141,6 +174,8 @@ if __name__ == "__main__":
         cmd_import(a[1], a[2])
     elif a[0] == "confirm":
         cmd_confirm(a[1])
+    elif a[0] == "table":
+        cmd_table()
     elif a[0] == "detect":
         tier = os.environ.get("SEEDED_TIER", "quick")
         cmd_detect(a[1], a[2:], tier)
